@@ -1,17 +1,17 @@
 SPECIFICATION Spec
 CONSTANTS
   Classes <- Classes4
-  Outs <- OutsC02
-  Durs = {0, 1, 2, 5}
-  Rets <- RetsC02
-  Advs <- AdvsAll
+  Outs <- OutsC10
+  Durs = {1}
+  Rets <- RetsTwoSmall
+  Advs <- AdvsExact
   Decs <- DecsSleep
   BFaults <- BFaultsNone
   Ras <- RasNone
-  Modes = {"call", "exec"}
-  RunGaps <- GapsNone
-  NRuns = 1
-  Configs <- ConfigsC02
+  Modes = {"exec"}
+  RunGaps <- GapsC10
+  NRuns = 3
+  Configs <- ConfigsC10T
   RecordHist = FALSE
 INVARIANT NoViolation
 INVARIANT AttemptsBounded
